@@ -51,7 +51,8 @@ def l2_specs(tier):
         add("chunk_share3", 5, reduce=True)
         add("load_freeze_drop", 8, reduce=True)
         add("handoff", 4, 3, reduce=True)
-        add("handoff3", 3, 6, reduce=True)
+        add("handoff3", 2, 2, reduce=True)
+        add("handoff_rebuild", 3, 4, reduce=True)
         add("static_hash", 6, reduce=True)
         add("static_hash3", 4, 3, reduce=True)
     else:
@@ -60,6 +61,7 @@ def l2_specs(tier):
         add("load_freeze_drop", 3, 8)
         add("handoff", 3, 12)
         add("handoff3", 2, 8)
+        add("handoff_rebuild", 3, 16)
         add("str_hash2", 3, 8)
         add("str_hash", 2, 24)
         add("static_hash", 3, 12)
@@ -69,6 +71,7 @@ def l2_specs(tier):
         add("load_freeze_drop", 12, reduce=True)
         add("handoff", 6, 16, reduce=True)
         add("handoff3", 4, 16, reduce=True)
+        add("handoff_rebuild", 5, 16, reduce=True)
         add("static_hash", 10, reduce=True)
         add("static_hash3", 6, 8, reduce=True)
     return specs
@@ -138,13 +141,14 @@ def run(tier):
         if o["capped"]:
             capped = True
             res.cap_hit(f"{name}: schedule cap reached after {o['schedules']} schedules")
-        if o["addresses_touched_by_several_threads"] == 0:
+        if o["addresses_touched_by_several_threads"] == 0 and not v:
             raise vlib.Machinery(f"L2 {name}: vacuous — no intercepted address is touched by more than one thread")
         if v:
             kind = "fault" if "fault" in v else "differs"
             if kind == "fault":
                 f = v["fault"]
-                kind = "double-free" if f.startswith("double free") else "use-after-free" if "use after free" in f else "fault"
+                kind = ("double-free" if f.startswith("double free") else "use-after-free" if "use after free" in f
+                        else "crash" if "died on a signal" in f else "fault")
             res.violation(f"C20:L2:{kind}:{s['body']}", {"body": s["body"], "bound": s["bound"], "schedule": v["schedule"],
                                                           "what": v.get("fault") or v.get("differs"), "events_tail": v["events"][-40:]})
     # ---- L1
@@ -191,7 +195,8 @@ def run(tier):
                        "load_freeze_drop (a module loading two shared ones is built, frozen and dropped while another thread "
                        "calls the shared functions), handoff / handoff3 (X builds a heap and hands it to Y through a blocking wait, "
                        "then builds two more heaps out of the cached remainder of the same chunk while Y reads and drops the first; "
-                       "handoff3 adds an unrelated allocating thread), str_hash / str_hash2 (frozen strings of a shared module "
+                       "handoff3 adds an unrelated allocating thread; in handoff_rebuild Y goes on to build heaps of its own out of the part "
+                       "of that chunk that its drop put into Y's cache, so both threads carve the same chunk), str_hash / str_hash2 (frozen strings of a shared module "
                        "hashed and used as dict keys on 3 / 2 threads), static_hash / static_hash3 (first use of the process-wide "
                        "static one-byte strings as dict keys on 2 / 3 threads; their lazily cached hash is reset before every "
                        "execution by hook H5). '/reduced' runs preempt only before an operation with which a LATER operation "
